@@ -780,6 +780,30 @@ def is_K5(lines):
     return any(any(full_reach(d, sel_of, c, x) for c in cands) for x, cands in sel_of.items())
 
 
+def is_K6(lines):
+    """the unforced initial-value Lazy of a mapped / lifted cell whose user function captures (and declares) handles is
+    taken out of the cell (sample_lazy; from there possibly into hold_lazy / accum_lazy / a clone): the function - one
+    Arc shared by the node's update closure and that thunk - and the handles it captures then outlive the node that
+    declares them to the collector"""
+    d, _ = analyze(lines)
+    alias = {}
+    for l in lines:
+        w = l.split()
+        if w and w[-1].startswith("keep:"):
+            w = w[:-1]
+        if not w:
+            continue
+        if w[0] == "clone" and len(w) > 2:
+            alias[int(w[2])] = alias.get(int(w[1]), int(w[1]))
+        if w[0] == "sample_lazy" and len(w) > 2:
+            c = int(w[2])
+            c = alias.get(c, c)
+            v = d.get(c)
+            if v and v["op"] in ("map_c", "lift") and v.get("keeps"):
+                return True
+    return False
+
+
 def is_K3_leak(lines):
     """a switch_c whose outer cell depends (through any reference) on the switch's own result: until the result is
     first sampled or updated its initial thunk holds the outer cell, a reference no tracer reports"""
